@@ -125,6 +125,17 @@ func projC02(kind string, n, v, a, i int, s1, s2, s3 string) (string, bool) {
 	return "", false
 }
 
+// projC06: the batch prep / post calls in the main lane (post exactly once, with the items in order)
+func projC06(kind string, n, v, a, i int, s1, s2, s3 string) (string, bool) {
+	switch kind {
+	case "prep_start":
+		return fmt.Sprintf("prep n%d v%d", n, v), true
+	case "post_start":
+		return fmt.Sprintf("post n%d v%d items [%s]", n, v, s2), true
+	}
+	return "", false
+}
+
 func projVisits(kind string, n, v, a, i int, s1, s2, s3 string) (string, bool) {
 	if kind == "prep_start" {
 		return fmt.Sprintf("n%d v%d", n, v), true
